@@ -509,7 +509,7 @@ fn eco_http_host(args: &[&str], v6: bool, host_name: Option<String>) -> String {
             }))
         }
     };
-    let t = std::time::Duration::from_millis(300);
+    let t = std::time::Duration::from_millis(1500);
     // (`td=` on the case line: those durations instead — only sensible with a peer that answers)
     let settings = crate::net::timeout_override(0)
         .or_else(|| Some(gamedig::protocols::types::TimeoutSettings::new(Some(t), Some(t), Some(t), 0).unwrap()));
